@@ -306,6 +306,7 @@ func slice(i *interpreter, pos token.Pos, x, lo, hi, max value) value {
 
 	switch x := x.(type) {
 	case string:
+		i.inspectStr(x)
 		return x[l:h]
 	case []value:
 		return x[l:h:m]
@@ -1087,6 +1088,7 @@ func callBuiltin(caller *frame, fn *ssa.Builtin, args []value) value {
 	case "len":
 		switch x := args[0].(type) {
 		case string:
+			caller.i.inspectStr(x)
 			return len(x)
 		case array:
 			return len(x)
@@ -1185,6 +1187,7 @@ func rangeIter(i *interpreter, x value) iter {
 		}
 		return it
 	case string:
+		i.inspectStr(x)
 		return &stringIter{Reader: strings.NewReader(x)}
 	}
 	panic(fmt.Sprintf("cannot range over %T", x))
@@ -1333,6 +1336,7 @@ func conv(i *interpreter, t_dst, t_src types.Type, x value) value {
 		if s, ok := x.(string); ok {
 			switch ut_dst := ut_dst.(type) {
 			case *types.Slice:
+				i.inspectStr(s)
 				var res []value
 				switch ut_dst.Elem().Underlying().(*types.Basic).Kind() {
 				case types.Rune:
